@@ -47,7 +47,8 @@ fn violate(rep: &mut Report, what: &str, key: &str, input: J) {
 
 const SUPER: usize = 0;
 const PKG: usize = 1;
-const MOD: usize = 2;
+#[allow(dead_code)]
+const MOD: usize = 2; // the stem `mod` (name table index 2)
 /// identifiers shared by modules, functions, constants, types and locals
 const POOL: &[&str] = &["aa", "bb", "cc", "ff", "gg", "kk", "tt"];
 const POOL0: usize = 3;
@@ -89,12 +90,6 @@ impl ImpTree {
                     format!("{}.{{{}}}", path_str(p, names), inner.join(", "))
                 }
             }
-        }
-    }
-    fn to_json(&self) -> J {
-        match self {
-            ImpTree::Leaf(p) => json!({"p": p}),
-            ImpTree::List(p, s) => json!({"p": p, "l": s.iter().map(|x| x.to_json()).collect::<Vec<_>>()}),
         }
     }
 }
@@ -2097,55 +2092,6 @@ fn check_variant(rep: &mut Report, drv: &mut Driver, p: &Program, label: &str, i
         "pkg.roto": render_module(p, 0, &keep_ok, &tags),
     });
     res
-}
-
-/// One dump line in the form both sides are compared in: script scopes only;
-/// block-like scopes (`$…`) are named by their enclosing function and lose
-/// their parent; declarations outside the case's identifier table (the
-/// harness's `sel`, `v`, `w`, `x`, `sp<id>`) are dropped; block-like scopes
-/// without imports and declarations are dropped (the `if sel == k` wrappers).
-#[allow(dead_code)]
-fn canon_line(s: &str, names: &[String]) -> Option<String> {
-    let parts: Vec<&str> = s.split('|').collect();
-    if parts.len() != 4 {
-        return Some(s.to_string());
-    }
-    let mut name = parts[0].to_string();
-    let mut parent = parts[1].to_string();
-    if !(name == "pkg" || name.starts_with("pkg.")) {
-        return None;
-    }
-    let blocky = name.contains('$');
-    if blocky {
-        let segs: Vec<&str> = name.split('.').collect();
-        let cut = segs.iter().position(|x| x.starts_with('$')).unwrap_or(segs.len());
-        name = format!("{}/$", segs[..cut].join("."));
-        parent = "-".into();
-    }
-    // an import may target a local of an enclosing block: same naming for that scope
-    let mut imps: Vec<String> = parts[2].split(',').filter(|x| !x.is_empty()).map(|x| {
-        if !x.contains('$') {
-            return x.to_string();
-        }
-        let (alias, target) = x.split_once('>').unwrap_or((x, ""));
-        let segs: Vec<&str> = target.split('.').collect();
-        let cut = segs.iter().position(|y| y.starts_with('$')).unwrap_or(segs.len());
-        format!("{alias}>{}/$.{}", segs[..cut].join("."), segs.last().unwrap_or(&""))
-    }).collect();
-    imps.sort();
-    let mut decls: Vec<&str> = parts[3].split(',').filter(|x| !x.is_empty()).filter(|x| {
-        let id = x.split(':').next().unwrap_or("");
-        names.iter().any(|n| n == id)
-    }).collect();
-    decls.sort();
-    if blocky && imps.is_empty() && decls.is_empty() {
-        return None;
-    }
-    // the function scope of a signature probe `sp<id>` exists only where the probe was kept
-    if name.rsplit('.').next().is_some_and(|l| l.starts_with("sp")) && imps.is_empty() && decls.is_empty() {
-        return None;
-    }
-    Some(format!("{name}|{parent}|{}|{}", imps.join(","), decls.join(",")))
 }
 
 /// model dump token (identifier numbers) → the hook's spelling
